@@ -28,7 +28,7 @@ AREAS_ADD = {
 
 PROPS_ADD = {
     "C17": {
-        "seed": 17, "areas": [("conc", 300), ("conc-race", 100), ("receiver", 120)], "thorough_mult": 8,
+        "seed": 17, "areas": [("conc", 300), ("conc-race", 100), ("receiver", 120), ("cleaner", 60)], "thorough_mult": 8,
         "assumptions": [
             "PARTIAL: absence of data races is NOT proved (no executable Gallina model exhibits the Go memory model); the models take one atomic step per access to shared state, and that those accesses are synchronised as listed in the lock table of Props/C17.v is an assumption supported only by the race-detector stress (area conc-race)",
             "Go runtime: sync.Mutex / sync.RWMutex give mutual exclusion, an unbuffered send completes only together with a receive, select takes any ready case, close of a closed channel and send on a closed channel panic, map iteration under the lock visits each entry once in arbitrary order",
